@@ -6,6 +6,8 @@ reads — against Model/StyleState.lean running on the regenerated class structu
 
 After EVERY operation the outcome (ok / exception class / value read) and the complete `as_dict()` of the object
 touched are compared exactly (values as indices into the regenerated value panel), at the end the trees of all objects.
+Rejected multi-key updates (valid keys before an invalid name / value, the alias next to an offender) are generated on
+purpose (`gen_rejected_update`): since repo fix cea5f08 nothing may have changed after the rejection.
 `magpylib.defaults` is process-global: it is reset before and after every history (try/finally) and instance
 attributes that shadow methods are removed again.
 
@@ -184,6 +186,55 @@ def class_at(P, cls, path):
     return cls
 
 
+def gen_rejected_update(rng, P, i, cls):
+    """an update that must be REJECTED after some of its keys were already assigned: one to three valid leaf entries
+    (accepted values) plus one offender — an unknown name at some depth, a value the leaf's setter refuses, or the
+    deprecated alias next to an invalid value — in random notation, on the root or on a sub-object"""
+    objs = [(), *[p for p, k, _ in sub_paths(P, cls) if k == "obj"]]
+    aliases = [p for p, k, _ in sub_paths(P, cls) if k == "alias"]
+    if aliases and rng.random() < 0.3:          # magnetization.update(size=…, mode='bogus') and the like, from any level above
+        ap = rng.choice(aliases)
+        recv = list(ap[:rng.randrange(len(ap))])
+    else:
+        recv = list(rng.choice(objs)) if rng.random() < 0.6 else []
+    rcls = class_at(P, cls, recv)
+    leaves = [(p, x) for p, k, x in sub_paths(P, rcls) if k == "leaf"]
+    entries = []
+    for p, vid in rng.sample(leaves, min(len(leaves), rng.choice([1, 2, 3]))):
+        ok = [j for j, o in enumerate(P["vrows"][vid]["vals"]) if o[0] == "ok"]
+        entries.append((list(p), rng.choice(ok) if ok else None))
+    sub_alias = [p for p, k, _ in sub_paths(P, rcls) if k == "alias"]
+    r = rng.random()
+    if sub_alias and r < 0.35:                  # the alias with a good value, and an offender next to it
+        entries.append((list(rng.choice(sub_alias)), rng.choice([8, 15, 10])))
+        r = rng.random() * 0.65 + 0.35
+    if r < 0.7:                                  # unknown name at some depth
+        p, _ = rng.choice(leaves)
+        p = list(p)
+        p[rng.randrange(len(p))] = rng.choice(["bogus", "colour", "zzz"])
+        entries.append((p, rng.choice([None, 8])))
+    else:                                        # a value the setter refuses
+        for _ in range(20):
+            p, vid = rng.choice(leaves)
+            bad = [j for j, o in enumerate(P["vrows"][vid]["vals"]) if o[0] == "err"]
+            if bad and not any(q == list(p) for q, _ in entries):
+                entries.append((list(p), rng.choice(bad)))
+                break
+    rng.shuffle(entries)
+    arg, kwargs = ({} if rng.random() < 0.5 else None), {}
+    for q, v in entries:
+        cut = rng.randrange(1, len(q) + 1)
+        for k in reversed(q[cut:]):
+            v = {k: v}
+        tgt = arg if (arg is not None and rng.random() < 0.5) else kwargs
+        key = "_".join(q[:cut])
+        if isinstance(v, dict) and isinstance(tgt.get(key), dict):
+            tgt[key] = {**tgt[key], **v}        # two entries below the same key in nested notation (one level merged)
+        else:
+            tgt[key] = v
+    return ("U", i, recv, arg, kwargs, True, rng.random() < 0.1)
+
+
 def gen_setattr(rng, P, i, cls):
     q, v = gen_entry(rng, P, cls)
     if rng.random() < 0.1:
@@ -203,7 +254,9 @@ def gen_history(rng, P):
         i = rng.randrange(n + 1) if rng.random() < 0.75 else 0
         cls = P["root"] if i == 0 else objects[objs[i - 1]][1]
         r = rng.random()
-        if r < 0.42:
+        if r < 0.13:
+            ops.append(gen_rejected_update(rng, P, i, cls))
+        elif r < 0.42:
             ops.append(gen_update(rng, P, i, cls))
         elif r < 0.72:
             ops.append(gen_setattr(rng, P, i, cls))
@@ -334,7 +387,15 @@ def run_real(P, objs, ops, pristine, stats):
                     x = root(i)
                     for k in recv:
                         x = getattr(x, k)
-                    x.update(to_real(P, arg), _match_properties=mt, _replace_None_only=rno, **to_real(P, kwargs))
+                    ids_before = set(prop_objects(root(i)))
+                    try:
+                        x.update(to_real(P, arg), _match_properties=mt, _replace_None_only=rno, **to_real(P, kwargs))
+                    except Exception:
+                        # heap observation (no model): a rejected update leaves the very same property objects in place
+                        stats["rejected_updates_heap_checked"] += 1
+                        if set(prop_objects(root(i))) != ids_before:
+                            notes.append(("rejected-update-replaced-objects", f"object {i}: property objects differ after a rejected update"))
+                        raise
                     res = "err shadow" if clean_shadows(root(i)) else "ok"
                 elif op[0] == "S":
                     _, i, recv, name, v = op
@@ -422,7 +483,7 @@ def run_stream(ctx, n):
     magpy.defaults.reset()
     pristine = magpy.defaults.as_dict()
     stats = {"odd_names": {}, "histories": 0, "ops": 0, "ops_by_kind": {}, "rejected_by_kind": {}, "accepted": 0, "resets": 0, "style_resets": 0, "max_path_depth": 0,
-             "objects": 0, "disagreements": 0, "heap_pairs_checked": 0, "final_reset_checked": 0, "stable_states_checked": 0, "panel_values": len(P["panel"]),
+             "objects": 0, "disagreements": 0, "heap_pairs_checked": 0, "rejected_updates_heap_checked": 0, "final_reset_checked": 0, "stable_states_checked": 0, "panel_values": len(P["panel"]),
              "property_classes": len(P["classes"]), "validator_rows": len(P["vrows"]), "values_outside_panel": 0}
     lines, reals, hist, fails = [], [], [], []
     for _ in range(n):
@@ -448,6 +509,8 @@ def run_stream(ctx, n):
                 kind = ("dunder" if nm.startswith("__") else "private") if nm.startswith("_") else "method-or-public"
                 key = f"{op[0]}:{kind}:{out[4:] if out.startswith('err') else 'ok'}"
                 stats["odd_names"][key] = stats["odd_names"].get(key, 0) + 1
+            if op[0] == "U" and out.startswith("err") and len(op[4]) + (len(op[3]) if isinstance(op[3], dict) else 0) >= 2:
+                stats["rejected_multikey_updates"] = stats.get("rejected_multikey_updates", 0) + 1
             if op[0] in ("U", "S"):
                 stats["max_path_depth"] = max(stats["max_path_depth"], len(op[2]) + 1)
         stats["resets"] += sum(o[0] == "R" for o in ops)
